@@ -632,6 +632,12 @@ func (c *Ctx) c10Views() {
 				if ev.Kind == pw.EvCall && strings.HasPrefix(ev.Role, "DynParam:") && len(ev.Args) == 1 {
 					n++
 					a := pointee(ev.Args[0])
+					// every callback gets an entry of its own: the record is built inside the iteration that hands it out (one record
+					// allocated before the loops and overwritten per item makes every Entry a caller kept show the last item's expiry)
+					if a != nil && ev.Loop != nil && a.Pos.IsValid() && (a.Pos < ev.Loop.Pos() || a.Pos > ev.Loop.End()) {
+						r.Bad("R10.5", "shardedMapLegacyWalkerOf.Walk", "entry-reused-across-callbacks", c.Pos(ev.Pos), "the record handed to the callback is allocated outside the loop over the entries: all callbacks receive one and the same record", shortTrace(p))
+						bad = true
+					}
 					for _, f := range []string{"K", "V", "E"} {
 						fv := p.FieldOf(a, f)
 						if (a.Kind != pw.KAlloc && a.Kind != pw.KZero) || fv == nil || fv.Kind != pw.KField || fname(fv.Field) != f || fv.Src == nil || fv.Src.Kind != pw.KRangeVal {
